@@ -95,8 +95,8 @@ def build_response(records: Sequence[Tuple[Tuple, int, bool]], id_: int = 0, add
 
 TYPES = ["_http._tcp.local.", "_ipp._tcp.local.", "_printer._sub._http._tcp.local.", "_HTTP._tcp.local.", "_osc._udp.local."]
 BASE_OF = {"_printer._sub._http._tcp.local.": "_http._tcp.local."}
-HOSTS = ["h1.local.", "H2.local.", "h3.local.", "Shared.local."]
-LABELS = ["alpha", "Beta", "gamma delta", "épsilon", "My.Dotted", "z"]
+HOSTS = ["h1.local.", "H2.local.", "h3.local.", "Shared.local.", "Maß.local."]
+LABELS = ["alpha", "Beta", "gamma delta", "épsilon", "My.Dotted", "z", "Straße µ", "ſigmaς"]
 V4 = [bytes([10, 0, 0, i]) for i in range(1, 9)]
 V6 = [b"\xfe\x80" + b"\0" * 13 + bytes([i]) for i in range(1, 9)]
 
@@ -126,6 +126,21 @@ def gen_service(rng: random.Random, name: Optional[str] = None, type_: Optional[
     text = rng.choice([b"", b"\x03a=1", b"\x03a=2\x04path", b"\x00"])
     return Svc(type_, name, server, rng.choice([80, 8080, 65535, 1]), text, a4, a6, host_ttl, other_ttl,
                rng.choice([0, 0, 10]), rng.choice([0, 0, 5]))
+
+
+def spell(rng: random.Random, label: str) -> str:
+    """A host or instance label as applications spell them: mostly plain, sometimes capitalised / upper case / with letters whose
+    lower(), upper() and casefold() forms differ in length or content (names are compared with str.lower() by the library)."""
+    r = rng.random()
+    if r < 0.55:
+        return label
+    if r < 0.72:
+        return label.capitalize()
+    if r < 0.82:
+        return label.upper()
+    if r < 0.92:
+        return label + "ß"
+    return "µ" + label.capitalize() + "é"
 
 
 def last_seen_copy(cache: Any, probe: Any) -> Any:
